@@ -68,9 +68,9 @@ type listSeriesSet struct {
 	idx    int
 }
 
-func (s *listSeriesSet) Next() bool                 { s.idx++; return s.idx < len(s.series) }
-func (s *listSeriesSet) At() storage.Series         { return s.series[s.idx] }
-func (s *listSeriesSet) Err() error                 { return nil }
+func (s *listSeriesSet) Next() bool                        { s.idx++; return s.idx < len(s.series) }
+func (s *listSeriesSet) At() storage.Series                { return s.series[s.idx] }
+func (s *listSeriesSet) Err() error                        { return nil }
 func (s *listSeriesSet) Warnings() annotations.Annotations { return nil }
 
 // genGrid draws replicas that are perturbations of one scrape grid: per-replica phase offset,
